@@ -606,8 +606,21 @@ func (i *Interp) sprintf(fr *frame, formatV value, args []value) value {
 			out = strConcat(out, "%")
 			continue
 		}
+		// explicit argument index %[n]verb
+		if lb := strings.IndexByte(flags, '['); lb >= 0 {
+			rb := strings.IndexByte(flags, ']')
+			if rb < lb {
+				panic(unsupported{"fmt: malformed [n] in format " + strconv.Quote(format)})
+			}
+			n, err := strconv.Atoi(flags[lb+1 : rb])
+			if err != nil || n < 1 {
+				panic(unsupported{"fmt: malformed [n] in format " + strconv.Quote(format)})
+			}
+			argn = n - 1
+			flags = flags[:lb] + flags[rb+1:]
+		}
 		if strings.ContainsAny(flags, "*[") {
-			panic(unsupported{"fmt: * or [n] in format " + strconv.Quote(format)})
+			panic(unsupported{"fmt: * in format " + strconv.Quote(format)})
 		}
 		if argn >= len(args) {
 			out = strConcat(out, "%!"+string(verb)+"(MISSING)")
